@@ -121,8 +121,9 @@ def evalConds (sub : Sub) (sc : Script) (x : Ctx) : List Cond → St → R Bool
 
 /-- `Transition._change_state` (flat). -/
 def changeState (sub : Sub) (sc : Script) (cfg : Cfg) (x : Ctx) (t : Trans) (dst : Nat) (s : St) : R Unit :=
-  -- machine.get_state(self.source).exit(event_data)
-  match cfg.state? t.source with
+  -- machine.get_model_state(model).exit(event_data): the state the model is in NOW (a callback of this event
+  -- may have moved the model since the transition was selected; repaired in ba1cc46 — it was `self.source`)
+  match cfg.state? (s.stateOf x.model) with
   | none => .err .valueError s
   | some src =>
     (callbacks sub sc .onExit x src.onExit s).bind fun _ s1 =>
